@@ -144,12 +144,24 @@ Theorem C14_returned_before_expiry_is_done : forall c w b tr1 tr2 g1 g j jb1 v,
 Proof. exact returned_before_expiry. Qed.
 Print Assumptions C14_returned_before_expiry_is_done.
 
-(* ... and a job that close() kills while it is still queued never starts: READY, CANCELLED *)
+(* ... and a job that close() kills while it is still QUEUED - its execute() task never got a worker slot of the evaluator's
+   semaphore, so its run-function was never handed to any pool - never starts: READY, CANCELLED (all backends).
+   A job killed while it HOLDS a worker is different: see C14_killed_job_is_final. *)
 Theorem C14_killed_while_queued_never_starts : forall c w b tr1 tr2 g1 g j jb1,
   grun c (ginit w b) tr1 = Some g1 -> getj g1 j = Some jb1 -> jph jb1 = TQueued -> grun c g1 (EKill j :: tr2) = Some g ->
   exists jb, getj g j = Some jb /\ jstarted jb = false /\ jhist jb = [READY; CANCELLED] /\ jstat jb = CANCELLED.
 Proof. exact killed_while_queued_never_starts. Qed.
 Print Assumptions C14_killed_while_queued_never_starts.
+
+(* zombies: the run-function of a job that close() gave up while it held a worker cannot be interrupted, nor recalled from the
+   queue of a process / loky / thread pool: it may still start, poll (it sees CANCELLED) and return after close() - even after
+   search() - returned.  Whatever happens afterwards, a killed job keeps its status, its history of writes and its single row *)
+Theorem C14_killed_job_is_final : forall c w b tr1 tr2 g1 g j jb1,
+  grun c (ginit w b) tr1 = Some g1 -> getj g1 j = Some jb1 -> jph jb1 = TKilled -> grun c g1 tr2 = Some g ->
+  exists jb, getj g j = Some jb /\ jph jb = TKilled /\ jstat jb = jstat jb1 /\ jhist jb = jhist jb1 /\
+             lookup_row j (rows g) = lookup_row j (rows g1).
+Proof. exact killed_job_is_final. Qed.
+Print Assumptions C14_killed_job_is_final.
 
 (* (d) after the expiry, the first stop test ends the submissions of this search() call (at most the batch whose stop test
    came just before the expiry is still submitted) *)
@@ -261,3 +273,31 @@ Example C14_demo_peer_backwards :
   ok_C14 1 [J 0 (W READY); J 0 (W RUNNING); J 0 FStart; J 0 (W CANCELLING); J 0 (Poll CANCELLING); J 0 FReturn; J 0 (W CANCELLED); J 0 (W DONE)]
          [(0, 7%Z)] [(0, DONE, 7%Z)] (-1)%Z 0 = Some (0, 1).
 Proof. vm_compute. reflexivity. Qed.
+
+(* a direct session closed while jobs are running / queued (close() kills them: CANCELLED rows with the failure output), then a
+   timed search() on the SAME evaluator: accepted, and the counters the evaluator reports (submitted - gathered) are the model's
+   (jobs without a row): 0 after each close - a stale count (here 2 after the first close) is rejected (position 20, code 1) *)
+Example C14_demo_close_then_search :
+  exists g, accept (observed_cfg (-1)) (ginit 2 (Some BEval))
+    [OSubmitCall; OW 0 READY; OW 1 READY; OW 2 READY; OGatherIn; OW 0 RUNNING; OW 1 RUNNING; OStart 0; OStart 1; ORet 0 5; OFin 0; OW 0 DONE; OCollected 0; OGatherOut;
+     OCloseIn; OW 1 CANCELLED; OCollected 1; OW 2 CANCELLED; OCollected 2; OCloseOut; OCounts 0; OReturn; OPoll 1 CANCELLED; ORet 1 6;
+     OAgain (Some BSearch); OSubmitCall; OW 3 READY; OGatherIn; OW 3 RUNNING; OStart 3; OSent0; OW 3 CANCELLING; OPoll 3 CANCELLING; ORet 3 8; OW 3 CANCELLED; OFin 3;
+     OCollected 3; OGatherOut; OCloseIn; OCloseOut; OCounts 0; OReturn] 0 = (g, None) /\
+    phase g = PDone /\ tables_agree 4 (rows g) [(0, DONE, 5%Z); (1, CANCELLED, (-1)%Z); (2, CANCELLED, (-1)%Z); (3, CANCELLED, 8%Z)] = true /\
+  snd (accept (observed_cfg (-1)) (ginit 2 (Some BEval))
+    [OSubmitCall; OW 0 READY; OW 1 READY; OW 2 READY; OGatherIn; OW 0 RUNNING; OW 1 RUNNING; OStart 0; OStart 1; ORet 0 5; OFin 0; OW 0 DONE; OCollected 0; OGatherOut;
+     OCloseIn; OW 1 CANCELLED; OCollected 1; OW 2 CANCELLED; OCollected 2; OCloseOut; OCounts 2] 0) = Some (20, 1).
+Proof. vm_compute. eexists. repeat split. Qed.
+
+(* pool backends: the run-function of a job killed while it held a worker (its work item was still in the pool's queue) starts
+   after close() and search() returned, sees CANCELLED and returns: accepted, the rows are unchanged; a job killed while
+   queued (job 2, never RUNNING) that starts afterwards is rejected (position 19, code 2) *)
+Example C14_demo_zombie :
+  exists g, accept (observed_cfg (-1)) (ginit 2 (Some BEval))
+    [OSubmitCall; OW 0 READY; OW 1 READY; OW 2 READY; OGatherIn; OW 0 RUNNING; OW 1 RUNNING; OStart 0; ORet 0 5; OFin 0; OW 0 DONE; OCollected 0; OGatherOut;
+     OCloseIn; OW 1 CANCELLED; OW 2 CANCELLED; OCloseOut; OCounts 0; OReturn; OStart 1; OPoll 1 CANCELLED; ORet 1 6] 0 = (g, None) /\
+    tables_agree 3 (rows g) [(0, DONE, 5%Z); (1, CANCELLED, (-1)%Z); (2, CANCELLED, (-1)%Z)] = true /\
+  snd (accept (observed_cfg (-1)) (ginit 2 (Some BEval))
+    [OSubmitCall; OW 0 READY; OW 1 READY; OW 2 READY; OGatherIn; OW 0 RUNNING; OW 1 RUNNING; OStart 0; ORet 0 5; OFin 0; OW 0 DONE; OCollected 0; OGatherOut;
+     OCloseIn; OW 1 CANCELLED; OW 2 CANCELLED; OCloseOut; OCounts 0; OReturn; OStart 2] 0) = Some (19, 2).
+Proof. vm_compute. eexists. repeat split. Qed.
